@@ -40,6 +40,8 @@ def obligations(tier, ctx):
     obs.append(Ob(name="notification", params=[("status", "int"), ("raises", "bool")], pre=["100 <= status <= 599"], call="H.notification_post(status, raises)", backend="P", timeout=120, family="(c) notifications"))
     for m in (0, 1):
         obs.append(Ob(name=f"cleanup_{m}", params=[("x", "int")], pre=["x == 0"], call=f"H.cleanup({m})", backend="P", timeout=60, family="leaving the context releases tasks, stream and clients"))
+    from symcheck.runner import mirror
+    obs += mirror(obs, r"^(request_mode[0-5]|notification)$", "F", limit=(3 if tier == "quick" else None))
     return obs
 
 
